@@ -95,6 +95,12 @@ T_C04_SkipsOnlyUnavailable == (Observed /\ ~everFaulted) =>
 T_C04_SaturatedGetsNothing == Observed =>
   /\ C02_Bound
   /\ ~everFaulted => \A k \in 1..Len(DL) : DL[k][4] <= Limit
+\* C01 / C07 "queued connections are served once readiness returns": a worker that is Available (every service answered
+\* ready at its last poll) and has connections in its queue is owed a poll - its waker has fired.  A worker that parks
+\* with a non-empty queue and no wake-up pending never serves them.
+T_C07_QueuedMeansWoken == (Observed /\ obs.ev = "step") =>
+  \A k \in 1..Len(St.wstate) :
+     (St.alive[k] /\ St.wstate[k] = "Available" /\ St.chanLen[k] > 0 /\ Len(St.wwoken) >= k) => St.wwoken[k]
 \* C05 "after the roughly 500 ms back-off": right after an iteration of the accept loop the timeout it will hand to its
 \* next poll is no later than the EARLIEST pending back-off deadline (virtual clock, measured; 2 ms slack; iterations
 \* during which the driver moved the clock are not judged: the loop computes its timeout before the clock moves on;
